@@ -3,7 +3,7 @@
    each hand-written after the parser it names; Model/GlatModel.v (Gloc / Glat reader), Model/PassModel.v (pass header).  The rest of the Silf parser and the Sill / name parsers are not modelled:
    DESIGN.md section 6/C01 lists them as covered by the sanitizer oracle only. *)
 From GR Require Import Base.Bytes Base.MemFacts Model.SfntModel Proofs.SfntProofs Model.CmapModel Proofs.CmapSafe Model.Lz4Model Proofs.Lz4Safe
-                       Model.VmModel Proofs.VmProofs Base.Mem Model.GlatModel Proofs.GlatProofs.
+                       Model.VmModel Proofs.VmProofs Base.Mem Model.GlatModel Proofs.GlatProofs Model.ClassMapModel Proofs.ClassMapProofs.
 From Coq Require Import NArith.
 
 (* The file face: for ARBITRARY file bytes, a table handed out is a slice of the file (offset + length inside the file) … *)
@@ -81,3 +81,16 @@ Example C01_example_glat :
   | _ => False
   end.
 Proof. vm_compute. repeat split. Qed.
+
+(* The class map of a Silf subtable (Silf::readClassMap / readClassOffsets): for ARBITRARY bytes, any Silf version and any position and
+   length inside the table, the reader never reads outside the data_len bytes it is given (with the class-map header size kept in 32 bits,
+   as repaired: kept in 16 bits it wrapped from 32766 classes on and the class data was read past the table). *)
+Theorem C01_class_map_reads_in_bounds : forall (l : bytes) start dlen version, (start + dlen <= tlen (mem_of_list l))%N ->
+  read_class_map (mem_of_list l) start dlen version <> CTrap.
+Proof. intros l start dlen version. apply read_class_map_safe. apply mem_of_list_wf. Qed.
+Print Assumptions C01_class_map_reads_in_bounds.
+(* non-vacuity: one linear class {5, 9} and one lookup class of one pair, 16-bit offsets: accepted *)
+Example C01_example_classmap :
+  read_class_map (mem_of_list [0;2; 0;1;  0;10; 0;14; 0;26;  0;5; 0;9;  0;1; 0;1; 0;0; 0;0; 0;7; 0;3]%N) 0 26 0x20000
+  = COk 2 1 [0; 2; 8]%N [5; 9; 1; 1; 0; 0; 7; 3]%N.
+Proof. vm_compute. reflexivity. Qed.
